@@ -307,3 +307,148 @@ def history_bounded(tier, seed):
             sc = HIST_SRC + "\nimport ecdsa.ellipticcurve as ecm\np, a, b, n = %d, %d, %d, %d\ncur = ecm.CurveFp(p, a, b, 1)\no1 = %s\no2 = %s\nprint('o1 == o2 ->', o1 == o2, ' o1 != o2 ->', o1 != o2, ' values', %r, %r)\n" % (p, a, b, n, e1, e2, m1, m2)
             found.setdefault("ellipticcurve.PointJacobi.__eq__#view-equality", (dict(curve=(p, a, b), P1=m1, P2=m2, __script__=sc), "== gave %r for values %r, %r" % (o1 == o2, m1, m2)))
     return n_cases, found, [dict(walks_per_curve=walks, curves=len(curves_))]
+
+
+KEYS_SRC = r"""
+import copy
+import hashlib
+import pickle
+import ecdsa
+from ecdsa import SigningKey, VerifyingKey, curves
+from ecdsa.util import sigencode_der, sigdecode_der
+
+
+def key_observations(sk, vk, fresh_sk, msg):
+    # what a user can observe of a key pair: serialisations, and signatures made / verified with the default hash
+    fvk = fresh_sk.get_verifying_key()
+    out = {}
+    out["vk.to_string"] = vk.to_string() == fvk.to_string()
+    out["vk.to_string(compressed)"] = vk.to_string("compressed") == fvk.to_string("compressed")
+    out["vk.to_der"] = vk.to_der() == fvk.to_der()
+    out["vk.to_pem"] = vk.to_pem() == fvk.to_pem()
+    out["sk.to_string"] = sk.to_string() == fresh_sk.to_string()
+    out["sk.to_der"] = sk.to_der() == fresh_sk.to_der()
+    out["sk.to_pem(pkcs8)"] = sk.to_pem(format="pkcs8") == fresh_sk.to_pem(format="pkcs8")
+    out["default_hashfunc"] = (vk.default_hashfunc is fvk.default_hashfunc) and (sk.default_hashfunc is fresh_sk.default_hashfunc)
+    s_hist = sk.sign_deterministic(msg)
+    s_fresh = fresh_sk.sign_deterministic(msg)
+    out["same-deterministic-signature"] = s_hist == s_fresh
+    for name, key, sig in (("history-key-verifies-fresh-signature", vk, s_fresh), ("fresh-key-verifies-history-signature", fvk, s_hist),
+                           ("signing-keys-own-verifying-key", sk.get_verifying_key(), s_fresh)):
+        try:
+            out[name] = key.verify(sig, msg) is True
+        except Exception as e:
+            out[name] = "raised %s" % type(e).__name__
+    d = sk.sign(msg, sigencode=sigencode_der)
+    try:
+        out["der-signature-round"] = fvk.verify(d, msg, sigdecode=sigdecode_der) is True
+    except Exception as e:
+        out["der-signature-round"] = "raised %s" % type(e).__name__
+    out["points-equal"] = (vk.pubkey.point == fvk.pubkey.point) and (fvk.pubkey.point == vk.pubkey.point)
+    out["vk == fresh vk"] = (vk == fvk) and (fvk == vk) and not (vk != fvk)
+    out["sk == fresh sk"] = (sk == fresh_sk) and (fresh_sk == sk) and not (sk != fresh_sk)
+    return out
+
+
+def run_key_history(curve_name, hash_name, secexp, trace, msg):
+    curve = getattr(curves, curve_name)
+    hf = getattr(hashlib, hash_name)
+    sk = SigningKey.from_secret_exponent(secexp, curve, hashfunc=hf)
+    vk = sk.get_verifying_key()
+    for op in trace:
+        if op == "precompute":
+            vk.precompute()
+        elif op == "precompute-lazy":
+            vk.precompute(lazy=True)
+        elif op == "pickle-vk":
+            vk = pickle.loads(pickle.dumps(vk))
+        elif op == "pickle-sk":
+            sk = pickle.loads(pickle.dumps(sk))
+        elif op == "deepcopy-vk":
+            vk = copy.deepcopy(vk)
+        elif op == "copy-sk":
+            sk = copy.copy(sk)
+        elif op == "verify":
+            vk.verify(sk.sign_deterministic(msg), msg)
+        elif op == "sign":
+            sk.sign(msg)
+        elif op == "to_der":
+            vk.to_der(); sk.to_der()
+        elif op == "to_string-compressed":
+            vk.to_string("compressed")
+        elif op == "reload-der":
+            vk = VerifyingKey.from_der(vk.to_der(), hashfunc=hf)
+        elif op == "reload-pem-sk":
+            sk = SigningKey.from_pem(sk.to_pem(), hashfunc=hf)
+        elif op == "vk-from-sk":
+            vk = sk.get_verifying_key()
+        elif op == "scale-point":
+            vk.pubkey.point.scale() if hasattr(vk.pubkey.point, "scale") else None
+        elif op == "mul-point":
+            vk.pubkey.point * 3
+    fresh = SigningKey.from_secret_exponent(secexp, curve, hashfunc=hf)
+    return key_observations(sk, vk, fresh, msg)
+"""
+
+
+def keys_history_bounded(tier, seed):
+    """C19, key part: after a history of precompute / pickle / copy / reload / sign / verify a key pair is
+    indistinguishable from a freshly built one of the same secret (serialisations, default hash, signatures)"""
+    ns = {}
+    exec(KEYS_SRC, ns)
+    run_key_history = ns["run_key_history"]
+    rnd = random.Random(977 + seed)
+    OPS = ["precompute", "precompute-lazy", "pickle-vk", "pickle-sk", "deepcopy-vk", "copy-sk", "verify", "sign", "to_der", "to_string-compressed",
+           "reload-der", "reload-pem-sk", "vk-from-sk", "scale-point", "mul-point"]
+    configs = [("NIST192p", "sha1"), ("NIST256p", "sha256"), ("SECP256k1", "sha512"), ("BRAINPOOLP160r1", "sha224"), ("NIST521p", "sha384")]
+    if tier == "quick":
+        configs = configs[:3]
+    n_hist = 12 if tier == "quick" else 80
+    found = {}
+    n_cases = 0
+    NAME = "keys#history-independence"
+    for (cn, hn) in configs:
+        import ecdsa.curves as cv
+        n = getattr(cv, cn).order
+        for h in range(n_hist):
+            secexp = rnd.choice([1, 2, n - 1, rnd.randrange(1, n)])
+            trace = [rnd.choice(OPS) for _ in range(rnd.randrange(1, 7))]
+            if h < len(OPS):
+                trace = [OPS[h]] + trace[:2]            # every operation at least once as the first step
+            msg = b"message %d" % h
+            n_cases += 1
+            script = KEYS_SRC + "\nobs = run_key_history(%r, %r, %d, %r, %r)\nbad = {k: v for k, v in obs.items() if v is not True}\nprint('differs from a fresh key pair:', bad) if bad else print('same as a fresh key pair')\n" % (cn, hn, secexp, trace, msg)
+            try:
+                obs = run_key_history(cn, hn, secexp, trace, msg)
+            except Exception as e:
+                found.setdefault(NAME, (dict(curve=cn, hash=hn, secexp=secexp, trace=trace, __script__=script), "the history raised %s: %s" % (type(e).__name__, e)))
+                continue
+            bad = {k: v for k, v in obs.items() if v is not True}
+            if bad:
+                found.setdefault(NAME, (dict(curve=cn, hash=hn, secexp=secexp, trace=trace, __script__=script), "after the history the key pair differs from a fresh one: %r" % (bad,)))
+    return n_cases, found, [dict(configs=configs, histories_per_config=n_hist)]
+
+
+PICKLE_HOOKS = ("__getstate__", "__setstate__", "__reduce__", "__reduce_ex__", "__copy__", "__deepcopy__", "__getnewargs__", "__getnewargs_ex__", "__slots__")
+
+
+def key_classes_have_default_pickling(R, tier, seed):
+    """closed check on the current source: the key classes define no pickling / copying hook, so pickle and copy hand over
+    the instance dictionary unchanged (the frame condition the C19 argument for keys rests on).  A hook that appears has no
+    contract: reported as an undischarged obligation."""
+    import ast
+    import collections
+    from pyvc import loader
+    for modname, classes in (("ecdsa.keys", ("VerifyingKey", "SigningKey")), ("ecdsa.ecdsa", ("Public_key", "Private_key", "Signature")),
+                             ("ecdsa.curves", ("Curve",)), ("ecdsa.ellipticcurve", ("CurveFp", "Point"))):
+        mod = loader.module(modname)
+        tree = ast.parse(mod.src)
+        for node in tree.body:
+            if isinstance(node, ast.ClassDef) and node.name in classes:
+                hooks = [n.name for n in node.body if isinstance(n, ast.FunctionDef) and n.name in PICKLE_HOOKS] + \
+                        [t.id for n in node.body if isinstance(n, ast.Assign) for t in n.targets if isinstance(t, ast.Name) and t.id in PICKLE_HOOKS]
+                name = "%s.%s#pickles-its-instance-dictionary" % (modname.replace("ecdsa.", "", 1), node.name)
+                ok = not hooks
+                R.obl[name] = dict(n=1, ok=1 if ok else 0, seconds=0.0, backends=collections.Counter({"ast": 1}), kind="frame", func=name.split("#")[0],
+                                   bad=[] if ok else [dict(path="-", line=node.lineno, verdict="refuted", instance=name,
+                                                           note="class %s defines %s: pickling/copying no longer hands over the instance dictionary, and the new hook has no contract" % (node.name, hooks))])
